@@ -23,6 +23,11 @@ NA = {
 PENDING_REASON = "check under construction in this session (engine designed in DESIGN.md section 4, not yet registered)"
 
 CHECKS = {
+ "C10": dict(engine="gensim", category="exploration", design_ref="4.2",
+   text="seeded command histories (gen via CLI or API with fresh or reused manager, touch, rm) against one scratch output directory with seeded pre-states; schemas carry zero or one injected check failure at a seeded position (root file or imported module); every gen is judged against an independent evaluation of every registered check: rejected => Err/diagnostic, plug-in never called, directory snapshot identical and no mutating file-system call under it (audit hook); accepted => exactly the returned files with exactly the returned contents; a share of runs injects ENOSPC/EIO/EACCES on the k-th mutating event; sampling, not proof",
+   note="the reference verdict calls the registered check functions directly (the checks themselves are C09's); raising checks / plug-ins are counted, not judged; trusts the audit hook and content snapshots as observers; the wall clock / user / host read by fcp_cpp are simulated",
+   technique="deterministic simulation of command histories on a private disk with injected check failures and write faults (audit-hook observer, independent verdict oracle)",
+   kind="deterministic simulation: command histories against a scratch output directory, injected check failures and write faults, snapshot + audit-hook observers"),
  "C11": dict(engine="parsesim", path="simfcp/parsesim11.py", category="fault_enumeration", design_ref="4.3",
    text="for seeded small schema trees on a private disk, EVERY byte-offset truncation of EVERY file is parsed (exhaustive per tree), plus ~40 token-level garbles and targeted out-of-domain literals per file, missing and emptied modules, through get_fcp and get_fcp_from_string with fresh / run-long shared / default-argument Loggers; each parse must return (20 s watchdog), raise nothing, answer is_ok/is_err, and every Err must render with citations [file:n] that exist and echo line n; sampled over trees and garbles",
    note="trusts the citation parser (regex over the rendered diagnostic) and the watchdog as termination oracle; says nothing about which verdict is returned",
